@@ -104,28 +104,34 @@ Dec821(q) ==
   ELSE D821dot(q, 1, 0, <<>>)
 
 (***************************************************************************)
-(* E.2  Monitor for one quoting round trip through the real programs.      *)
-(*   a     address: local part lp, '@', fixed host name (addresses(5))     *)
-(*   hq    local part as the package wrote it into a header field (bytes   *)
-(*         between "<" and "@host>" of the Return-Path line printed by     *)
-(*         qmail-inject -n -f a), Bad if not observed                      *)
-(*   hback recipients the package derived from the fields To: hq@host and  *)
-(*         Cc: <hq@host> (RFC 822 address-list parsing), Bad if n.o.       *)
-(*   aback recipient derived from the argument a (quoted by the package,   *)
-(*         parsed back as RFC 822), Bad if n.o.                            *)
-(*   sq    local part as qmail-remote sent it in MAIL FROM / RCPT TO       *)
-(*   sback what qmail-smtpd handed to the queue program for that command   *)
-(*         line; sok = 1 iff it answered 2xx                               *)
-(* Returns "" or the name of the failing clause.                           *)
+(* E.2  Monitors for the quoting round trips through the real programs.    *)
+(* a = lp '@' host with a fixed host name (addresses(5): the domain part   *)
+(* is everything after the final '@').  Bad = not observed / refused.      *)
+(* Each returns "" or the name of the failing clause.                      *)
 (***************************************************************************)
-QuoteVerdict(lp, host, hq, hback, aback, sq, sback, sok) ==
+\* argument path: qmail-inject -a a; back = the recipient handed to the queue program (the package
+\* quotes the argument for a header and parses it back as RFC 822)
+QaVerdict(lp, host, back) ==
+  IF back # lp \o <<AT>> \o host THEN "ArgQuotedAndParsedBackDiffers" ELSE ""
+
+\* header path: hq = the local part as the package wrote it into a header field (Return-Path line
+\* printed by qmail-inject -n -f a, text between "<" and "@host>"); b1, b2 = the recipients derived
+\* from "To: hq@host" and "Cc: <hq@host>" (RFC 822 address-list parsing), snd = the envelope
+\* sender derived from "Return-Path: <hq@host>"
+QhVerdict(lp, host, hq, b1, b2, snd) ==
   LET a == lp \o <<AT>> \o host
-  IN IF aback # Bad /\ aback # a THEN "ArgQuotedAndParsedBackDiffers"
-     ELSE IF hq # Bad /\ Dec822(hq) # lp THEN "HeaderFormNotRfc822EncodingOfAddress"
-     ELSE IF hback # Bad /\ hback # <<a, a>> THEN "HeaderQuotedAndParsedBackDiffers"
-     ELSE IF sq # Bad /\ lp # <<>> /\ Dec821(sq) # lp THEN "SmtpFormNotRfc821EncodingOfAddress"
-     ELSE IF sback # Bad /\ lp # <<>> /\ (sok # 1 \/ sback # a) THEN "SmtpQuotedAndParsedBackDiffers"
+  IN IF Dec822(hq) # lp THEN "HeaderFormNotRfc822EncodingOfAddress"
+     ELSE IF b1 # a \/ b2 # a \/ snd # a THEN "HeaderQuotedAndParsedBackDiffers"
      ELSE ""
+
+\* SMTP path: sq = the local part as qmail-remote sent it in MAIL FROM / RCPT TO (text between "<"
+\* and "@host>"), sok = 1 iff qmail-smtpd answered that command line with 2xx, back = the address
+\* it handed to the queue program.  addresses(5): an empty local part cannot appear in SMTP.
+QsVerdict(lp, host, sq, sok, back) ==
+  IF lp = <<>> THEN ""
+  ELSE IF Dec821(sq) # lp THEN "SmtpFormNotRfc821EncodingOfAddress"
+  ELSE IF sok # 1 \/ back # lp \o <<AT>> \o host THEN "SmtpQuotedAndParsedBackDiffers"
+  ELSE ""
 
 (***************************************************************************)
 (* E.3  Header address lists: the mailboxes a list names, the documented   *)
@@ -187,22 +193,24 @@ ExpectedRcpts(mode, fields, otherResent, args, cfg) ==
        [] OTHER      -> IF args # <<>> THEN ar ELSE hd
 
 (***************************************************************************)
-(* Monitor for one run of qmail-inject.  Observed: rc exit status, env the *)
-(* recipients handed to the queue program (any order: the documents do not *)
-(* fix one), snd the envelope sender, nbcc the number of Bcc / Resent-Bcc  *)
-(* fields in the message handed to the queue program, env2 the recipients  *)
-(* when that message is injected again with -h (Bad = not done).           *)
-(* fsnd: the -f argument as [lp, dom] or Bad; flagr: QMAILINJECT has 'r'.  *)
+(* Monitor for one run of qmail-inject (record r).  Input: mode, fields,   *)
+(* other (1 = some other Resent- field is present), args, cfg, hasf/fsnd   *)
+(* (the -f argument as [lp, dom]), flagr (QMAILINJECT contains r).         *)
+(* Observed: rc exit status, env the recipients handed to the queue        *)
+(* program (any order: the documents do not fix one), snd the envelope     *)
+(* sender, nbcc the number of Bcc / Resent-Bcc fields in the message       *)
+(* handed to the queue program, and (has2 = 1) rc2 / env2: the same when   *)
+(* that message is injected again with -h.                                 *)
 (***************************************************************************)
-ListVerdict(mode, fields, otherResent, args, cfg, fsnd, flagr, rc, env, snd, nbcc, rc2, env2) ==
-  LET exp == ExpectedRcpts(mode, fields, otherResent, args, cfg)
-      exp2 == HeaderRcptsNoBcc(fields, otherResent, cfg)
-      fs == IF fsnd = Bad THEN Bad ELSE ArgBox(fsnd, cfg)
-  IN IF rc # 0 THEN "ValidListRefused"
-     ELSE IF BagOf(env) # BagOf(exp) THEN "EnvelopeIsNotTheListedMailboxes"
-     ELSE IF nbcc # 0 THEN "BccFieldNotRemoved"
-     ELSE IF fsnd # Bad /\ snd # fs /\ ~(flagr /\ snd = fs \o <<45, AT, LBR, RBR>>) THEN "SenderOptionNotEnvelopeSender"
-     ELSE IF env2 # Bad /\ (rc2 # 0 \/ BagOf(env2) # BagOf(exp2)) THEN "RewrittenHeaderParsesDifferently"
+ListVerdict(r) ==
+  LET exp == ExpectedRcpts(r.mode, r.fields, r.other = 1, r.args, r.cfg)
+      exp2 == HeaderRcptsNoBcc(r.fields, r.other = 1, r.cfg)
+      fs == ArgBox(r.fsnd, r.cfg)
+  IN IF r.rc # 0 THEN "ValidListRefused"
+     ELSE IF BagOf(r.env) # BagOf(exp) THEN "EnvelopeIsNotTheListedMailboxes"
+     ELSE IF r.nbcc # 0 THEN "BccFieldNotRemoved"
+     ELSE IF r.hasf = 1 /\ r.snd # fs /\ ~(r.flagr = 1 /\ r.snd = fs \o <<45, AT, LBR, RBR>>) THEN "SenderOptionNotEnvelopeSender"
+     ELSE IF r.has2 = 1 /\ (r.rc2 # 0 \/ BagOf(r.env2) # BagOf(exp2)) THEN "RewrittenHeaderParsesDifferently"
      ELSE ""
 
 (***************************************************************************)
